@@ -488,7 +488,7 @@ def x10(cx: Cx, ob: Ob) -> None:
     constructor_owns_records(cx, ob)
 
 
-@obligation("C01-X12", "def-use lints over the files this property is anchored in (api.py): no one-shot iterator (generator expression, map, filter, zip, iter, reversed, enumerate, generator call) bound to a name is consumed twice or inside a loop that starts after its creation; no mutable default argument is mutated, stored or returned", floor=1)
+@obligation("C01-X12", "def-use lints over the files this property is anchored in (api.py): no one-shot iterator (generator expression, map, filter, zip, iter, reversed, enumerate, generator call) bound to a name is consumed twice or inside a loop that starts after its creation; no mutable default argument is mutated, stored or returned; no binary search over a sequence that is not kept sorted; no container resized inside the loop that iterates it; no Iterable parameter consumed twice before it is materialised; itertools.groupby only over input sorted by the grouping key", floor=1)
 def x12(cx: Cx, ob: Ob) -> None:
     from ..rules import package_lints
 
